@@ -151,7 +151,7 @@ func (exec *Executor) execUnaryMathExpr(
 			if found == nil && next == nil {
 				return statusOK, nil
 			}
-			val = intCallback(v)
+			val = applyIntCallback(v, intCallback, floatCallback)
 		case float64:
 			if found == nil && next == nil {
 				return statusOK, nil
